@@ -172,6 +172,9 @@ func (s *Solver) declare(t *Term) {
 		case "uf":
 			// declared per function name+signature; keyed by a representative term
 			sig := d.Name
+			if PredefinedFuns[sig] {
+				continue
+			}
 			rep := Var("uf!"+sig, SBool)
 			if !s.isDeclared(rep) && !seenUF[sig] {
 				var as []string
